@@ -20,9 +20,8 @@ TRUSTED = ["Coq 8.16.1 kernel + vm_compute (primitive floats)", "Rust executor /
            "python driver (generators, AST printers fnlib.py, symbolic-derivative oracle, comparators)",
            "hand-written Gallina model coq/Model/Newton.v (jacobian) on coq/Model/Matrix.v (set_col), tied to src/matrix/functions.rs by differential execution"]
 ASSUMPTIONS = ["Rust semantics of Vec/usize/closures as modelled; the closure passed to jacobian is a pure function of its argument",
-               "the O(delta) truncation bound for smooth maps and the one-ulp drift of (x+delta)-delta on non-dyadic data are searched and tied, not proved"]
-UNPROVED = ["round two: jacobian_truncation / jacobian_truncation_C (|J_ij - d_j f_i| <= |delta|/2 sup|d_j^2 f_i| over R and componentwise over C) are proved; what remains search-only is the float rounding floor",
-            "floating-point rounding of the quotient and the drift of the restored coordinate on non-dyadic data (the float model reproduces both bit for bit; tie)"]
+               "-0.0 is not restored by `state[j] += d; state[j] -= d` (it comes back as +0.0), so the exactness theorems exclude entries equal to -0.0; harmless unless the closure inspects the sign of zero"]
+UNPROVED = ["proved: truncation (jacobian_truncation(_C)); exactness at binary64 on dyadic data with explicit bounds (jacobian_affine_exact_float, _cfirst_ for the generator's evaluation order, _C for Gaussian-dyadic data): the matrix is M bit for bit and every coordinate is restored; restoration drift (restore_drift(_float), jacobian_call_points_drift(_float)), the rounding floor (jacobian_rounding_floor, jacobian_entry_floor_float) and jacobian_total_error(_float) = truncation + floor + drift, with fd_optimal_step. NOT proved: a complex total-error statement (the pieces exist), and relative (rather than absolute) data errors in the complex floor"]
 
 MANIFEST = dict(
     text=("Theorems for every m, n >= 0, every function and every arithmetic about the Gallina model of Mat64::jacobian / "
@@ -34,7 +33,7 @@ MANIFEST = dict(
           "same definition is run against the implementation (shape, entries, call sequence; bit-compared) on affine maps of every "
           "shape 1..6 x 1..6 with dyadic data and on smooth maps, f64 and Complex; an independent oracle (exactness on dyadic affine "
           "data, symbolic derivatives, restore discipline) searches for a failing input."),
-    note="O(delta) accuracy on smooth maps and float rounding are tied and searched, not proved.",
+    note="Truncation, rounding floor and restoration drift are theorems (standard rounding model and binary64 under finiteness / no-underflow hypotheses); exactness on dyadic data is a theorem with explicit bounds; the search checks the same on the implementation.",
     technique="Coq proof over an abstract ring/field + model/implementation differential execution (vm_compute on primitive floats vs Rust executor)",
     design="7 (C18)")
 
